@@ -4,7 +4,9 @@
 (* The judgement is made against this general rule, not against the         *)
 (* library's table: a suffix the rule allows MAY be rejected by the library *)
 (* (it defines a subset) but if accepted it must denote the right value; a  *)
-(* suffix the rule does not allow for the quantity MUST be rejected.        *)
+(* suffix the rule does not allow for the quantity MUST be rejected.  The   *)
+(* suffixes the library itself defines (snapshot: SuffixCore.tla) must     *)
+(* keep converting -- RowsSuffix requires that on top of this module.       *)
 EXTENDS Numeric
 
 B(str) == str     \* byte sequences are written as tuples below
